@@ -152,6 +152,7 @@ class Scheduler(object):
         self.delivered = []          # terminal events delivered (for dup)
         self.did_rerun = 0
         self.resumes = 0
+        self.pended = set()
         self.order_started = []
         self.order_done = []
         self.world = None
@@ -346,6 +347,21 @@ class Scheduler(object):
             aid = ev[1]
             a = w.inflight.get(aid) or w.pending.get(aid)
             if a is None:
+                continue
+            if ev[0] == "respond":
+                # the inquiry is answered: StackStorm resumes the workflow, then the action completes
+                if aid not in w.pending:
+                    continue
+                if w.status in ("paused", "pausing"):
+                    self.do(["request", self.K.choice(["resuming", "running"], "ops", "respond", aid)])
+            elif a["item"] is None and aid not in self.pended and w.status in ("running", "resuming", "pausing") \
+                    and not w.cancel_req and self.coin("pending", aid):
+                # the action asks for input first (an inquiry): it reports pending and waits
+                self.pended.add(aid)
+                self.do(["deliver", aid, "pending", None])
+                self.heap.push(self.heap.now + 1 + 20 * self.K.u("fault", "respond", aid), ("respond", aid))
+                self.stats["fault_act_pending"] = self.stats.get("fault_act_pending", 0) + 1
+                self.after_handler()
                 continue
             x = a["x"]
             status, result = self.outcome_for(a)
